@@ -90,6 +90,13 @@ def step (ws : List String) : String :=
     match parseSig a, parseSig b with
     | some named, some tail => "diag " ++ " ".intercalate (diag (which == "gen") named tail (va == "1"))
     | _, _ => "diag ?"
+  | "ret" :: which :: rest =>
+    let rs := rest.filterMap fun w => match w with
+      | "int" => some RTy.int | "sse" => some RTy.sse | "x87" => some RTy.x87 | _ => none
+    let step := if which == "gen" then retGenStep else if which == "shim" then retShimStep else retSpecStep
+    match retWalk step ⟨0, 0, 0⟩ rs with
+    | some l => "ret " ++ " ".intercalate (l.map RetLoc.toString)
+    | none => "ret none"
   | "frame" :: rest => frameLine rest
   | ["alloca", n] => match n.toNat? with
     | some n => s!"alloca {(allocaRoundBV (BitVec.ofNat 64 n)).toNat}"
